@@ -250,6 +250,7 @@ class Sandbox:
             with self.trace.as_filename(filename, code):
                 exec(compiled_code, self.data)
         except Exception as user_exception:
+            self._touch_exception_text(user_exception, execution)
             with lock:
                 if execution is not None and execution.abandoned:
                     return self
@@ -261,6 +262,7 @@ class Sandbox:
         # NOTE: https://docs.python.org/3/library/exceptions.html#SystemExit
         # This exception does not inherit from Exception and has to be caught separately
         except SystemExit as system_exit:
+            self._touch_exception_text(system_exit, execution)
             with lock:
                 if execution is not None and execution.abandoned:
                     return self
@@ -288,6 +290,20 @@ class Sandbox:
 
         self._next_context_id += 1
         return self
+
+    @staticmethod
+    def _touch_exception_text(exception, execution):
+        """ Reporting an exception converts it to text, which runs the
+        student's own ``__str__``. Under a time limit, let that happen once
+        before the execution lock is taken: a conversion that never ends is
+        then ended by the time limit like any other student code, instead of
+        blocking the thread that waits to give up on us. """
+        if execution is None:
+            return
+        try:
+            str(exception)
+        except Exception:
+            pass
 
     def run(self, code=None, filename=None, inputs=None, threaded=None,
             after=None, before=None, real_io=False):
